@@ -24,3 +24,6 @@ mod transform;
 mod vp8_arithmetic_decoder;
 
 pub mod vp8;
+
+#[cfg(image_webp_verif)]
+pub mod verif_hooks;
